@@ -199,6 +199,26 @@ ASSUME \A w \in BoundaryWorkloads : \A t \in {1, 2, 65, 129, 257, MaxBoundaryWG}
 ASSUME 65 \in BoundaryCounts(2, 64) /\ 129 \in BoundaryCounts(2, 64) /\ {65, 129, 193, 257} \subseteq BoundaryCounts(4, 64)
 ASSUME ShareOf(2, 64, 65, 2) = 1 /\ ShareOf(2, 64, 64, 2) = 0 /\ ShareOf(4, 64, 193, 4) = 1 /\ ShareOf(4, 2, 9, 3) = 1
 
+(***************************************************************************)
+(* Kernels with dynamically sized local memory (driver.LocalPtr arguments: *)
+(* the LDS size of a work-group is only known from the dispatch packet).   *)
+(* On a timing platform with very few compute units several of their       *)
+(* work-groups are resident on one CU at the same time and must get        *)
+(* disjoint LDS windows; emulation gives every work-group a private LDS.   *)
+(***************************************************************************)
+LocalMemWorkloads == {"matrixtranspose", "nw", "pagerank", "stencil2d", "fft", "nbody", "matrixmultiplication"}
+\* work-groups of the largest launch
+LocalMemWGs(w, p) ==
+  CASE w = "matrixtranspose" -> (p[1] \div 64) * (p[1] \div 64)
+    [] w = "nw" -> p[1] \div 64
+    [] w = "pagerank" -> p[1]
+    [] w = "stencil2d" -> (p[1] \div 16) * (p[2] \div 64)
+    [] w = "fft" -> p[1] \div 4096
+    [] w = "nbody" -> (IF p[1] < 256 THEN 256 ELSE p[1]) \div 256
+    [] w = "matrixmultiplication" -> (p[3] \div 32) * (p[2] \div 32)
+\* reduced platforms on which work-groups share a compute unit: <<CUs per shader array, shader arrays>>
+SharedCUPlatforms == {<<1, 1>>, <<1, 2>>}
+
 \* SelectGPU refuses more than one GPU
 SingleGPU == {"bfs", "nw", "conv2d", "im2col", "memcopy", "xor", "overlapcopy"}
 \* every queue would run the whole transform on the same buffer: not a multi-GPU program
